@@ -86,6 +86,31 @@ M("c18-new-global", "C18", "json_object.c",
   "struct json_object *json_object_get(struct json_object *jso)\n{\n",
   "static int jcv_get_calls;\nstruct json_object *json_object_get(struct json_object *jso)\n{\n\tjcv_get_calls++;\n", needle="jcv_get_calls")
 
+# ---- C13 -------------------------------------------------------------------------------------
+M("c13-drop-null-guard", "C13", "json_patch.c",
+  "\tif (from_s == NULL) {\n\t\t_set_err(EINVAL, \"Patch object has a null 'from' field\");\n\t\treturn -1;\n\t}\n", "",
+  needle="json_patch_apply_move_copy")
+M("c13-swap-flags", "C13", "json_patch.c",
+  "rc = json_patch_apply_move_copy(base, patch_elem, path, 0, patch_error);", "rc = json_patch_apply_move_copy(base, patch_elem, path, 1, patch_error);",
+  needle="copy")
+M("c13-replace-no-exist-check", "C13", "json_patch.c",
+  "\tif (!add && json_pointer_get(*res, path, NULL)) {", "\tif (0 && json_pointer_get(*res, path, NULL)) {", needle="replace")
+M("c13-cb-swapped", "C13", "json_patch.c",
+  "\tif (*add)\n\t\trc = json_object_array_insert_idx(parent, idx, value);\n\telse\n\t\trc = json_object_array_put_idx(parent, idx, value);",
+  "\tif (!*add)\n\t\trc = json_object_array_insert_idx(parent, idx, value);\n\telse\n\t\trc = json_object_array_put_idx(parent, idx, value);",
+  needle="json_object_array_insert_idx_cb")
+M("c13-mutate-patch", "C13", "json_patch.c",
+  "\tif (!json_object_equal(value1, value2)) {", "\tjson_object_object_del(patch_elem, \"value\");\n\tif (!json_object_equal(value1, value2)) {",
+  needle="json_object_object_del")
+M("c13-leak-ref-on-failure", "C13", "json_patch.c",
+  "\t\t_set_err(errno, \"Failed to set value at path referenced by 'path' field\");\n\t\tjson_object_put(value);\n",
+  "\t\t_set_err(errno, \"Failed to set value at path referenced by 'path' field\");\n", needle="json_object_get")
+M("c13-failure-idx-late", "C13", "json_patch.c",
+  "\t\tpatch_error->patch_failure_idx = ii;\n\n\t\tif (!json_object_object_get_ex(patch_elem, \"op\", &jop)) {",
+  "\t\tif (!json_object_object_get_ex(patch_elem, \"op\", &jop)) {\n\t\t\tpatch_error->patch_failure_idx = ii;", needle="index")
+M("c13-benign-guard-style", "C13", "json_patch.c",
+  "\t\tif (op == NULL || path == NULL) {", "\t\tif (!op || !path) {", expect="silent")
+
 
 def sh(cmd, **kw):
     return subprocess.run(cmd, shell=isinstance(cmd, str), stdout=subprocess.PIPE, stderr=subprocess.STDOUT, text=True, **kw)
